@@ -45,6 +45,8 @@ func checkC09(r *Report, p *Program) {
 	objectMapContracts(r, p, "R09.11")
 	r09_tables(r, p, "R09.12")
 	r09_recordSet(r, p, "R09.13")
+	claimKeepTable(r, p, "R09.14")
+	revisionLabelsAgree(r, p, "R09.15")
 	// a failed claim / revision write stops the sync before children are reconciled from an incomplete view (R12.1 on the revision code)
 	errorRule(r, p, "R09.9", 8, func(f *ssa.Function) bool {
 		file := p.File(f)
@@ -572,8 +574,9 @@ func r09_tables(r *Report, p *Program, rule string) {
 					effs = append(effs, "append")
 				}
 			}
+			sortStrings(effs)
 			got := strings.Join(effs, ",")
-			want := map[int]string{1: "latest.revision=", -1: "applyPatch,append"}[same]
+			want := map[int]string{1: "latest.revision=", -1: "append,applyPatch"}[same]
 			if same == 0 {
 				ok, why = false, "an observed revision is processed without comparing its patch with the current parent's"
 			} else if got != want {
@@ -825,4 +828,63 @@ func r09_recordSet(r *Report, p *Program, rule string) {
 		}
 		r.Check(rule, FK(f), p.Pos(f.Pos()), ok, "set semantics per (group, kind)", why)
 	}
+}
+
+// revisionLabelsAgree: a new ControllerRevision is labelled so that the selector claimRevisions uses finds it again:
+// under a generated selector it carries controller-uid = parent UID (what makeSelector selects by), otherwise the
+// parent's template labels — the two decisions have the same polarity in newControllerRevision and makeSelector.
+func revisionLabelsAgree(r *Report, p *Program, rule string) {
+	r.Rule(rule, "newControllerRevision labels the revision with controller-uid ⇔ makeSelector selects by controller-uid (isUsingGeneratedLabelSelector), else with the parent's template labels; both with the parent's UID")
+	r.Floor(rule, 1)
+	nf := fn(r, p, rule, "controller/composite.parentController.newControllerRevision")
+	ms := fn(r, p, rule, "controller/composite.parentController.makeSelector")
+	if nf == nil || ms == nil {
+		return
+	}
+	gen := func(l Lit) bool { return strings.Contains(l.Atom, "parentController.isUsingGeneratedLabelSelector)(p0)") }
+	ok, why := true, ""
+	nUID, nTpl := 0, 0
+	for _, b := range nf.Blocks {
+		for _, in := range b.Instrs {
+			if mu, isMU := in.(*ssa.MapUpdate); isMU && E(mu.Key) == `"controller-uid"` {
+				nUID++
+				if unguarded(nf, nil, in, func(l Lit) bool { return l.Pos && gen(l) }) != nil {
+					ok, why = false, "the revision is labelled controller-uid although the controller does not select by it"
+				}
+				if !strings.Contains(E(mu.Value), "GetUID)(p1)") {
+					ok, why = false, "controller-uid label is "+E(mu.Value)+", not the parent's UID"
+				}
+			}
+			if isCallTo(in, "unstructured.NestedStringMap") {
+				nTpl++
+				if unguarded(nf, nil, in, func(l Lit) bool { return !l.Pos && gen(l) }) != nil {
+					ok, why = false, "the revision takes the parent's template labels although the controller selects by controller-uid"
+				}
+			}
+		}
+	}
+	if nUID != 1 || nTpl != 1 {
+		ok, why = false, "expected one controller-uid label store and one template-labels read in newControllerRevision"
+	}
+	nSel := 0
+	for _, cs := range callsTo(ms, false, "meta/v1.AddLabelToSelector") {
+		if E(cs.Common().Args[1]) == `"controller-uid"` {
+			nSel++
+			if unguarded(ms, nil, cs.Instr.(ssa.Instruction), func(l Lit) bool { return l.Pos && gen(l) }) != nil {
+				ok, why = false, "makeSelector selects by controller-uid without a generated selector"
+			}
+			if !strings.Contains(E(cs.Common().Args[2]), "GetUID)(p1)") {
+				ok, why = false, "makeSelector selects controller-uid = "+E(cs.Common().Args[2])
+			}
+		}
+	}
+	for _, cs := range callsTo(ms, false, "GetNestedFieldInto") {
+		if unguarded(ms, nil, cs.Instr.(ssa.Instruction), func(l Lit) bool { return !l.Pos && gen(l) }) != nil {
+			ok, why = false, "makeSelector reads the parent's selector although the selector is generated"
+		}
+	}
+	if nSel != 1 {
+		ok, why = false, "makeSelector does not select by controller-uid exactly once"
+	}
+	r.Check(rule, FK(nf)+"↔makeSelector", p.Pos(nf.Pos()), ok, "same polarity, same UID", why)
 }
